@@ -20,6 +20,18 @@
 #define MODE 2
 #endif
 
+/* is the producer action really pending in the timer lists, and with which period (ticks)? */
+static uint32_t prod_cycle(void)
+{
+    CO_TMR_TIME *e; CO_TMR_ACTION *a; uint32_t i, j, n = 0, cyc = 0;
+    if (node.Sync.Tmr < 0) { return 0; }
+    for (e = node.Tmr.Use, i = 0; (e != 0) && (i <= OD_TMR_N); e = e->Next, i++) {
+        for (a = e->Action, j = 0; (a != 0) && (j <= OD_TMR_N); a = a->Next, j++) {
+            if (((int16_t)a->Id == node.Sync.Tmr) && (a->Func == COSyncProdSend)) { n++; cyc = a->CycleTicks; }
+        }
+    }
+    return (n == 1) ? cyc : 0;
+}
 static uint32_t min_us(void) { return (OD_FREQ >= 10000u) ? 100u : (10000u / OD_FREQ) * 100u; }
 
 void harness(void)
@@ -62,6 +74,7 @@ void harness(void)
             if ((nv & 0x7FF) != (o5 & 0x7FF)) {
                 CHECK(is_abort && code == 0x06090030, "CAN-ID change while producing refused with 0609 0030h");
                 CHECK(v1005 == o5 && node.Sync.Tmr >= 0, "refused: previous value kept, production continues");
+                CHECK(prod_cycle() != 0, "refused CAN-ID change: the producer action is still pending");
             } else {
                 CHECK(!is_abort && v1005 == nv, "same CAN-ID accepted while producing");
                 CHECK((node.Sync.Tmr >= 0) == ((nv & 0x40000000u) != 0), "production stops immediately when bit 30 is cleared");
@@ -72,6 +85,7 @@ void harness(void)
                 CHECK(node.Sync.CobId == nv, "new CAN-ID used for SYNC recognition at once");
             } else if (o6 >= min_us()) {
                 CHECK(!is_abort && v1005 == nv && node.Sync.Tmr >= 0, "production starts immediately when bit 30 is set");
+                CHECK(prod_cycle() != 0, "started producer is pending in the timer lists");
             } else if (o6 != 0) {
                 CHECK(is_abort && v1005 == o5 && node.Sync.Tmr < 0, "period the timer cannot resolve: start refused, previous value kept");
             } else {
@@ -85,8 +99,10 @@ void harness(void)
         if (prod0) {
             if (ok) {
                 CHECK(!is_abort && v1006 == nv && node.Sync.Tmr >= 0 && node.Sync.Cycle == nv, "new period accepted and used immediately");
+                CHECK(prod_cycle() != 0, "re-timed producer is pending in the timer lists");
             } else if (nv != 0) {
                 CHECK(is_abort && v1006 == o6 && node.Sync.Tmr >= 0, "period the timer cannot resolve refused, previous value kept");
+                CHECK(prod_cycle() != 0, "refused period: production continues with the previous period");
             }
         } else {
             CHECK(!is_abort && v1006 == nv && node.Sync.Tmr < 0, "period stored while not producing");
